@@ -266,6 +266,7 @@ class Proc:
         self.version = version
         self.vfs = Vfs.load(pool.get("vfs_variants", [pool["vfs"]])[version]).install()
         self.compilers: dict = {}
+        self.slot_lookup: dict = {}
         self.kept: list = []  # results handed to the caller earlier: a later call must not change them
         self.shared: dict = {}  # doc index -> (infos, coros, rops) objects reused by `share` ops
         self.held: list = []
@@ -333,11 +334,15 @@ def do_op(P: Proc, op: dict) -> dict:
             c = sut.new_compiler(t.get("lookup"))
             if slot is not None:
                 P.compilers[slot] = c
+                P.slot_lookup[slot] = list(t.get("lookup") or [])
         else:
             c = P.compilers[slot]
             if slot in P._failed_slots:
                 P.probes["compile_after_failed_on_slot"] += 1
-            c.lookup_paths[:] = t.get("lookup") or []
+            # a caller that compiles several files with the same lookup list does not hand the list over again
+            if P.slot_lookup.get(slot) != list(t.get("lookup") or []):
+                c.lookup_paths[:] = t.get("lookup") or []
+                P.slot_lookup[slot] = list(t.get("lookup") or [])
         src = t["src"]
         if src is None:
             with P.vfs.open(t["file"], "r", encoding="utf-8") as f:
@@ -717,6 +722,20 @@ def run_item(item: dict) -> dict:
         if srng.random() < 0.3:
             ops[1:1] = [{"k": "X", "kind": "return", "exc": "KeyboardInterrupt", "frac": srng.random()}]
         hists.append((seeds.H(pool_seed, "sweep", a, b), ops))
+    # a decompilation that ends in the fallback (state of the passes it had already run is left where it was), then
+    # another routine set
+    def _falls_back(j):
+        r = forkrun(reference, pool, {"k": "D", "j": j}, timeout=300)
+        return "text" in r["digest"] and r["digest"]["text"].startswith(sut.MARKER)
+
+    fb = [j for j in range(len(pool["docs"])) if _falls_back(j)]
+    res["processes"] += len(pool["docs"])
+    others = list(range(len(pool["docs"])))
+    srng.shuffle(others)
+    for f_ in fb[:3]:
+        for o_ in others[:4]:
+            if o_ != f_:
+                hists.append((seeds.H(pool_seed, "fb", f_, o_), [{"k": "D", "j": o_}, {"k": "D", "j": f_}, {"k": "D", "j": o_}]))
     # "the same input repeated": the very same op objects decompiled again, by the same or by the other decompiler
     rdocs = list(range(len(pool["docs"])))
     srng.shuffle(rdocs)
